@@ -40,7 +40,7 @@ TResult == /\ T.kind = "corr" /\ l = NEv /\ Ev.a = "result"
                    /\ Require(Ev.labels_kept, T.id, "LabelsKept", l, <<>>)
                    /\ Require(Ev.input_untouched, T.id, "InputUntouched", l, <<>>)
                    /\ Require(Ev.frame_eq_array, T.id, "FrameEqArray", l, <<>>)
-                   /\ Require(T.identity_model => \A r \in 0 .. D - 1 : Mat(Ev.mean, r, r) >= Scale - 1, T.id, "UnitDiagonal", l, <<>>)
+                   /\ Require(T.identity_model => \A r \in 0 .. D - 1 : Ev.learnable[r + 1] => Mat(Ev.mean, r, r) >= Scale - 1, T.id, "UnitDiagonal", l, <<>>)
                    /\ Accepted(T.id) /\ l' = l + 1
            /\ UNCHANGED <<vars, tid>>
 TDispatch == /\ T.kind = "dispatch" /\ l = 1
